@@ -33,6 +33,7 @@
     of the concrete component types and the lifetime of the identifier buffers
     are audited on the real code by the harness's global allocator after every
     operation and at the end of every history. *)
+From Brood Require Import SerdeC IdIter IdIterFacts.
 From Brood Require Import Base World Multi Spec Kinds Tables Sched Query SerdeC Phys
   BaseFacts Inv StepInv QueryFacts SerdeL SerdeCFacts PhysFacts Heap HeapFacts ColsFacts Bytes Packed PackedFacts.
 
@@ -183,3 +184,15 @@ Theorem C05_adoption_needs_the_capacity_test :
   | None => 99
   end = 1.
 Proof. exact adopt_without_guard_leaks. Qed.
+
+(** The identifier bit iterator ([archetype::identifier::Iter], the walk every column operation is driven
+    by): with its four decisions regenerated from the source (Gen/Bytes.v) it returns, for every registry
+    size and every identifier of that size, exactly the bits the rest of the model reads off the identifier
+    bytes — so a column is never taken for the column of another component — and it never moves its pointer
+    past the last byte of the identifier's allocation. *)
+Theorem C05_identifier_iterator : forall n bytes, length bytes = (n + 7) / 8 ->
+  iter_run n bytes = Some (shape_of_bytes n bytes).
+Proof. exact iter_run_is_shape. Qed.
+Check (C05_identifier_iterator : forall n bytes, length bytes = (n + 7) / 8 ->
+  iter_run n bytes = Some (shape_of_bytes n bytes)).
+Print Assumptions C05_identifier_iterator.
